@@ -3,6 +3,7 @@ import WaVerif.Model.C17Rv
 import WaVerif.Gen.C17Riscv
 import WaVerif.Model.C17La
 import WaVerif.Gen.C17Loong64
+import WaVerif.Model.C17X64
 open WaVerif WaVerif.Proto
 
 namespace C17Drv
@@ -157,6 +158,23 @@ def handle (line : String) : String :=
     | none => "bad-op"
   | ["larows"] => LaD.badRows
   | ["lafmt", name] => LaD.fmtInfo name
+  | ["x64rm", opc, w, reg, base, d] =>
+    -- model bytes of `op reg, [base+disp]`, and the model decoder run on them
+    match parseHexNat opc, parseNat w, parseNat reg, parseNat base, parseInt d with
+    | some o, some w, some r, some b, some d =>
+      let bs := WaVerif.C17.X64.encodeRM o w r b d
+      let back := match WaVerif.C17.X64.decodeRM o bs with
+        | some (w', r', b', d') => s!"{w'} {r'} {b'} {d'}"
+        | none => "none"
+      s!"{toHex bs} | {back}"
+    | _, _, _, _, _ => "bad-op"
+  | ["x64rmdec", opc, h] =>
+    match parseHexNat opc, parseHex h with
+    | some o, some bs =>
+      match WaVerif.C17.X64.decodeRM o bs with
+      | some (w', r', b', d') => s!"{w'} {r'} {b'} {d'}"
+      | none => "none"
+    | _, _ => "bad-op"
   | ["rvrows"] => RvD.rvBadRows
   | ["rvranges"] => RvD.rvBadRanges
   | _ => "bad-op"
